@@ -391,6 +391,8 @@ func (w *World) genHistory(p HistParams) *History {
 		w.scenarioBadFork(h, deliver)
 	case "h440":
 		w.scenarioH440(h, deliver)
+	case "badtxsweep":
+		w.scenarioBadTxSweep(h, deliver)
 	}
 	if len(h.Ops) > 0 && h.Ops[len(h.Ops)-1].Dump == nil {
 		h.Ops[len(h.Ops)-1].Dump = w.dump(h.NUT)
@@ -805,6 +807,55 @@ func (w *World) scenarioH440(h *History, deliver func(*TNode) *Op) {
 		}
 	}
 	h.Stats["scenario-h440"]++
+}
+
+// txCorruptions: every single-rule corruption of a transaction with the kind of transaction it applies to
+var txCorruptions = []struct {
+	name string
+	kind int
+}{{"sig-bit", 1}, {"sig-other-key", 1}, {"sig-foreign", 1}, {"sig-masterchain", 1}, {"sig-netid+1", 1}, {"sig-masterchain", 4},
+	{"sig-foreign", 5}, {"nonce+1", 1}, {"nonce-1", 1}, {"fee-1", 1}, {"overdraft", 1}, {"tamper-after-sign", 1}, {"outputs-33", 1},
+	{"outputs-0", 1}, {"overflow-outputs", 1}, {"version-0", 1}, {"version-6-as-1", 1}, {"dup-delegate", 2}, {"delegate-id-0", 2},
+	{"delegate-id-1", 2}, {"name-too-long", 2}, {"wrong-prev-delegate", 3}, {"set-delegate-missing", 3}, {"set-delegate-with-funds", 3},
+	{"stake-below-min", 4}, {"stake-wrong-delegate", 4}, {"stake-wrong-prevunlock", 4}, {"early-unstake", 5}, {"foreign-fund", 5},
+	{"unstake-too-much", 5}, {"unstake-fee-gt-amount", 5}}
+
+// scenarioBadTxSweep: each transaction corruption once, in a block of its own on the live chain state (the block must
+// be refused, or accepted where the corruption happens to be harmless in that state: the model decides), with a valid
+// block in between now and then.
+func (w *World) scenarioBadTxSweep(h *History, deliver func(*TNode) *Op) {
+	rng := w.rng
+	for _, c := range txCorruptions {
+		parent := w.nodeOfTop(h.NUT)
+		if parent == nil || parent.Snap == nil {
+			return
+		}
+		var txs []*transaction.Transaction
+		var meta []TxMeta
+		start := rng.Intn(len(w.wallets))
+		for k := 0; k < len(w.wallets); k++ {
+			w.forceKind, w.forceWallet, w.forceCorrupt = c.kind, (start+k)%len(w.wallets), c.name
+			t, m, _ := w.genTxs(parent, 1, 0)
+			w.forceKind, w.forceCorrupt = 0, ""
+			if len(t) == 1 && (int(t[0].Version) == c.kind || c.name == "version-0" || c.name == "version-6-as-1") {
+				txs, meta = t, m
+				break
+			}
+		}
+		if len(txs) == 1 {
+			h.Stats["badtx-sweep:"+c.name]++
+			x := w.build(parent, BlockSpec{TsDelta: 14000 + rng.UpTo(2000), Recipient: w.wallets[rng.Intn(len(w.wallets))].Addr, Txs: txs, TxMeta: meta, Sign: 1})
+			w.admit(x)
+			deliver(x)
+		}
+		if rng.Intn(3) == 0 {
+			ytx, ymeta, _ := w.genTxs(parent, 2, 0)
+			y := w.build(parent, BlockSpec{TsDelta: 15000, Recipient: w.wallets[rng.Intn(len(w.wallets))].Addr, Txs: ytx, TxMeta: ymeta, Sign: 1})
+			w.admit(y)
+			deliver(y)
+		}
+	}
+	h.Stats["scenario-badtxsweep"]++
 }
 
 // scenarioCorruptSweep: every single-rule corruption of an otherwise valid block, once each, on a live chain state
